@@ -10,9 +10,9 @@ CHECKS = {
  "C13": ("fam-cw20", "explicit-state BFS over real cw20-base mint/burn/update-minter histories to fixpoint; reference {minter, cap}", "5 C13"),
  "C19": ("fam-cw20", "explicit-state BFS over allowance histories to fixpoint, three-view agreement in every state, migration from pre-0.14 layout applied at every reachable state", "5 C19"),
  "C03": ("fam-cw3", "explicit-state BFS over real cw3-fixed and cw3-flex(+cw4-group) to fixpoint per configuration; status compared in every state with an independent exact-arithmetic outcome function over all completions of the outstanding votes", "5 C03"),
- "C04": ("fam-cw3", "complete enumeration of the tally lattice of cw3::Proposal with backward dynamic programming (AG/EF over vote completions) plus a 2^64 boundary grid; exact u128 arithmetic oracle", "5 C04"),
+ "C04": ("fam-cw3", "complete enumeration of the tally lattice of cw3::Proposal with backward dynamic programming (AG/EF over vote completions) plus a 2^64 boundary grid, under several clocks (height boundary, sub-second time expiry, never); exact u128 arithmetic oracle", "5 C04"),
  "C05": ("fam-cw3", "explicit-state BFS with fault injection (failing receiver) and re-entrant proposals in the kernel; dispatch-trace oracle (at most once, as proposed, only while Passed, authorised) and status automaton", "5 C05"),
- "C06": ("fam-cw3", "explicit-state BFS placing group updates before/in/after the proposal block; block-start snapshot reference vs ballots and totals", "5 C06"),
+ "C06": ("fam-cw3", "explicit-state BFS placing group updates (cw4-group UpdateMembers, or bond/unbond on a cw4-stake backed group) before/in/after the proposal block; block-start snapshot reference vs ballots and totals", "5 C06"),
  "C15": ("fam-cw3", "explicit-state BFS over deposit histories with real bank/cw20 balances vs deposit ledger; bounded exhaustive reachability search (EF) for recoverability of failed deposits", "5 C15"),
  "C07": ("fam-cw1", "explicit-state BFS over the grant machine of cw1-whitelist / cw1-subkeys to fixpoint with Execute probes of every message kind and ordered pair by every caller class at every state; independent covered() predicate and message-equality oracle", "5 C07"),
  "C08": ("fam-cw1", "explicit-state BFS over allowance grant/decrease/spend/advance histories to fixpoint; reference allowance ledger compared through queries after every step; cumulative monitor in depth-bounded configs", "5 C08"),
